@@ -7,6 +7,7 @@ import (
 	"go/types"
 	"math"
 	"strings"
+	"time"
 
 	"golang.org/x/tools/go/ssa"
 )
@@ -143,6 +144,12 @@ const maxGlobals = 1000
 
 // execBlock executes the instructions of block b; returns true if control does not fall out
 func (x *vc) execBlock(fr *frame, st *state, b *ssa.BasicBlock) bool {
+	if !x.t0.IsZero() && time.Since(x.t0) > 40*time.Second {
+		panic(genBudget{"generation time budget (40 s) exceeded"})
+	}
+	if len(x.decls) > 150000 {
+		panic(genBudget{"verification condition too large (more than 150000 definitions)"})
+	}
 	for _, instr := range b.Instrs {
 		if _, isPhi := instr.(*ssa.Phi); isPhi {
 			continue
@@ -680,7 +687,7 @@ func (x *vc) binop(fr *frame, st *state, in *ssa.BinOp, pos string) Val {
 	if srt == sF64 {
 		fops := map[token.Token]string{token.ADD: "fp.add RNE", token.SUB: "fp.sub RNE", token.MUL: "fp.mul RNE", token.QUO: "fp.div RNE"}
 		if op, ok := fops[in.Op]; ok {
-			return Val{T: x.define("f", sF64, app(op, a.T, b.T)), Typ: t}
+			return Val{T: x.define("f", sF64, app(x.fpOp(op), a.T, b.T)), Typ: t}
 		}
 		return x.freshVal("fop", t, st)
 	}
@@ -907,6 +914,7 @@ func (x *vc) sliceOp(fr *frame, st *state, in *ssa.Slice, pos string) Val {
 
 func (x *vc) makeInterface(st *state, v Val, from types.Type, to types.Type) Val {
 	id := x.srt.typeID(from)
+	x.kindFact(from)
 	srt := x.srt.sortOf(from)
 	var payload string
 	switch from.Underlying().(type) {
